@@ -3,6 +3,7 @@ import Robust.Irc.Proofs.H3e
 KILL, QUIT (services link), SERVER.
 -/
 namespace Robust.Irc
+open Srv
 open Robust AMap
 
 /-! ### KILL -/
